@@ -210,12 +210,20 @@ def sortVals : List AttrVal → List AttrVal
   | [] => []
   | v :: t => insertVal v (sortVals t)
 
+/-- AIGP, RFC 7311 §3. -/
+def aigpCode : Nat := 26
+
 /-- One attribute as it is reported (`none`: not part of the report). -/
 def reportVal (p : Params) (as : List Attr) (a : Attr) : Option AttrVal :=
   match a.val with
   | .mpReach .. | .mpUnreach .. | .mpReachRaw .. | .mpUnreachRaw .. => none
   | .as4Path _ | .as4Aggregator _ _ => none
-  | .unknown c raw => if a.flags.trans then some (.unknown c raw) else none
+  | .unknown c raw =>
+    -- an unrecognised optional non-transitive attribute is quietly ignored (RFC 4271 §5); AIGP (26, RFC 7311:
+    -- optional non-transitive, carried here as the bytes it is) is accepted from a peer for which
+    -- AIGP_SESSION is enabled and treated as absent otherwise (RFC 7311 §3.3)
+    if a.flags.trans then some (.unknown c raw)
+    else if c == aigpCode && p.aigp then some (.unknown c raw) else none
   | .asPath s =>
     if p.asn4 then some (.asPath s)
     else match findAs4Path as with
